@@ -803,7 +803,7 @@ class D08(Extra):
 # ---------------------------------------------------------------- C10
 class D10(Extra):
     RULE = ('dense-time online monitors: past-time (and pastified bounded-future) formulas, a history of 0-3 update() batches, reset() (also twice, also before the '
-            'first update), then 1-3 continuation batches whose time-stamps start again at 0; every post-reset output must equal what a freshly constructed '
+            'first update), then 1-3 continuation batches whose time-stamps start again at 0 (in some cases the first of them does not mention one of the variables: the fresh monitor fails on that, and so must the reset one); every post-reset output must equal what a freshly constructed '
             'monitor returns for the continuation')
 
     def gen(self, rng, tier):
@@ -825,6 +825,10 @@ class D10(Extra):
             post = gen_sigs(rng, nv, maxn=6, minn=1)
             out.append({'f': f, 'nv': nv, 'sigs': hist, 'post': post, 'hb': rng.choice([0, 1, 1, 2, 3]), 'pb': rng.choice([1, 1, 2, 3]),
                         'twice': rng.random() < 0.3, 'n': 0})
+            # asynchronous inputs: the first update() after the reset does not mention one of the variables (a fresh monitor fails on that; so must the reset one,
+            # instead of reading the value supplied before the reset)
+            if len(fml.fvars(f)) >= 2 and rng.random() < 0.5:
+                out.append(dict(out[-1], omit=rng.choice(sorted(fml.fvars(f))), hb=rng.choice([1, 1, 2]), pb=rng.choice([1, 2])))
         return out
 
     def batches(self, f, sigs, k):
@@ -849,6 +853,8 @@ class D10(Extra):
             return [['update', [[fml.VARS[i], dense.to_impl(sigs[i][b[i][0]:b[i][1]])] for i in used]] for b in bs]
         hist = ups(c['sigs'], self.batches(f, c['sigs'], c['hb'])) if c['hb'] > 0 else []
         post = ups(c['post'], self.batches(f, c['post'], c['pb']))
+        if c.get('omit') is not None:
+            post[0] = ['update', [x for x in post[0][1] if x[0] != fml.VARS[c['omit']]]]
         base = {'monitor': 'dense-online', 'vars': fml.VARS[:c['nv']], 'spec': 'out = ' + text(f), 'pastify': past}
         calls = hist + [['reset']]
         if c.get('twice'):
@@ -866,21 +872,28 @@ class D10(Extra):
         for i in (a, b):
             if i['setup']['status'] != 'ok':
                 return 'violation', dict(det, observed=i['setup'])
-        for r in b['calls']:
-            if r['status'] != 'ok':
-                return 'dropped', None      # the fresh monitor itself fails: not a reset question (C05 / C17)
+        def outcome(r):
+            return r['value'] if r['status'] == 'ok' else ['fails', r['status'], r.get('kind')]
+        if c.get('omit') is not None:
+            det['omitted_in_first_update_after_reset'] = fml.VARS[c['omit']]
+        else:
+            for r in b['calls']:
+                if r['status'] != 'ok':
+                    return 'dropped', None      # the fresh monitor itself fails on complete inputs: not a reset question (C05 / C17)
         npost = len(b['calls'])
         nreset = 2 if c.get('twice') else 1
         for k, r in enumerate(a['calls']):
             if r['status'] != 'ok':
+                if k >= len(a['calls']) - npost and c.get('omit') is not None:
+                    continue
                 if k < len(a['calls']) - npost and r.get('status') == 'rtamt' and 'reset' not in str(r):
                     # an update() of the history fails by itself (e.g. KF-C05-const-binary): not a reset question
                     hist_idx = [j for j, cc in enumerate(self.impl_cases(c)[0]['calls']) if cc[0] == 'update'][:len(a['calls']) - npost - nreset]
                     if k in hist_idx:
                         return 'dropped', None
                 return 'violation', dict(det, expected='every call returns', observed=r)
-        post = [r['value'] for r in a['calls'][-npost:]]
-        fresh = [r['value'] for r in b['calls']]
+        post = [outcome(r) for r in a['calls'][-npost:]]
+        fresh = [outcome(r) for r in b['calls']]
         if post != fresh:
             return 'violation', dict(det, expected={'fresh monitor': fresh}, observed={'after reset': post})
         return 'ok', None
